@@ -167,6 +167,17 @@ def run(seed=0, rounds=300):
                     else:
                         aa = a
                     compare('%s %s' % (lab, d1), lambda: g(_sarr(aa)), lambda: g(aa))
+            # ---- memory layout: results of column-major (Fortran-ordered / transposed) operands keep that layout (order='K') ----
+            sh2 = rng.choice([(2, 2), (2, 3), (3, 2)])
+            k2 = sh2[0] * sh2[1]
+            a3 = (_vals(rng, 'int64', k2) % 1000).reshape(sh2); b3 = (_vals(rng, 'int64', k2) % 1000).reshape(sh2)
+            fa, fb = np.asfortranarray(a3), np.asfortranarray(b3)
+            for lab, g in (('K add', lambda x, y: (x + y).ravel(order='K')), ('K mul scalar', lambda x, y: (x * 3).ravel(order='K')),
+                           ('K astype', lambda x, y: x.astype('float64').ravel(order='K')), ('K neg', lambda x, y: (-x).flatten('K')),
+                           ('K floordiv', lambda x, y: (x // 4).flatten('K')), ('K cmp', lambda x, y: (x > y).ravel(order='K')),
+                           ('K transposed', lambda x, y: (x.T * 2).ravel(order='K')), ('C ravel', lambda x, y: (x + y).ravel())):
+                compare('layout %s %s' % (lab, sh2), lambda: g(A._to_forder(_sarr(a3)), A._to_forder(_sarr(b3))), lambda: g(fa, fb))
+            compare('layout K mixed %s' % (sh2,), lambda: (A._to_forder(_sarr(a3)) + _sarr(b3)).ravel(order='K'), lambda: (fa + b3).ravel(order='K'))
             # ---- casts --------------------------------------------------------------------------------------
             dst = rng.choice(INT_DTS + ['float64', 'object', 'bool'])
             src = a
